@@ -80,7 +80,7 @@ def raw_expr(d):
         return f"(Some (arakawa_raw {s['nj']} {s['ni']} {arr2(s['xg'])} {arr2(s['yg'])}))"
     if d.family == 'ugrid':
         nx = [x / 8.0 for x, y in s['nodes']]
-        ny = [y / 8.0 for x, y in s['nodes']]
+        ny = [y / 8.0 + s.get('y_off', 0.0) for x, y in s['nodes']]
         return f"(Some (ugrid_raw {arr1(nx)} {arr1(ny)} {to_coq(s['faces'])}))"
     raise ValueError(d.family)
 
@@ -100,6 +100,10 @@ def impl_polygons(ems):
         if p is None:
             out.append(None)
         else:
+            if not isinstance(p, shapely.Polygon) or len(p.interiors):
+                # a cell is one ring of corners: anything else (a MultiPolygon from a "repaired" cell, a ring with a hole) is not
+                raise ValueError(f'cell {len(out)} is given the geometry {p.geom_type} with {len(getattr(p, "interiors", []))} holes, '
+                                 f'not a plain polygon')
             c = shapely.get_coordinates(p.exterior)
             out.append([(float(x), float(y)) for x, y in c[:-1]])
     return out
